@@ -140,26 +140,62 @@ def lineRun : FileRun :=
   { path := "a.c".toList, inlineSupprs := [], tokenLines := [("a.c".toList, 1), ("a.c".toList, 2), ("a.c".toList, 3)], findings := [] }
 
 /-- F24a: a command-line suppression for a line of analysed code that matches nothing is reported only when the
-    unrelated option `--inline-suppr` is on (the token lines are fed to the list only then) -/
+    unrelated option `--inline-suppr` is on (legacy caller: the token lines are fed to the list only then); with the
+    proposed repair (`markAlways`) it is reported either way -/
 theorem line_suppression_needs_inline_counterexample :
     report [()] (fun _ s => s.fileName == "a.c".toList) false (fun _ => false)
-        (runOps toyVerdict [mkSuppr "uninitvar" "a.c" 3] (fileOps false lineRun)) = [] ∧
+        (runOps toyVerdict [mkSuppr "uninitvar" "a.c" 3] (fileOps false false lineRun)) = [] ∧
     (report [()] (fun _ s => s.fileName == "a.c".toList) true (fun _ => false)
-        (runOps toyVerdict [mkSuppr "uninitvar" "a.c" 3] (fileOps true lineRun))).map (·.errorId)
+        (runOps toyVerdict [mkSuppr "uninitvar" "a.c" 3] (fileOps false true lineRun))).map (·.errorId)
+      = ["uninitvar".toList] ∧
+    (report [()] (fun _ s => s.fileName == "a.c".toList) false (fun _ => false)
+        (runOps toyVerdict [mkSuppr "uninitvar" "a.c" 3] (fileOps true false lineRun))).map (·.errorId)
       = ["uninitvar".toList] := by
   decide
 
 /-- F24b: a suppression with a hash loses the hash on the way from a worker to the parent (`toString` does not print it):
     the parent adds a second, hash-less entry, which the report then names, although the single executor (one list)
-    never reports an entry with a hash -/
+    never reports an entry with a hash.  With the proposed repair (`skipHash`) nothing is sent for it. -/
 theorem hash_lost_on_wire_counterexample :
     let s : Suppr := { mkSuppr "nullPointer" "a.c" noLine with hash := 12345 }
     let worker := runOps (fun _ _ => Res.checked) [s] [.sup true ⟨"nullPointer".toList, 1⟩]
-    let parent := (workerReport worker).foldl (recv true) [s]
+    let parent := (workerReport false worker).foldl (recv true) [s]
     report [()] (fun _ x => x.fileName == "a.c".toList) false (fun _ => false) worker = [] ∧
     (report [()] (fun _ x => x.fileName == "a.c".toList) false (fun _ => false) parent).map (fun x => (x.errorId, x.hash))
       = [("nullPointer".toList, 0)] ∧
-    ¬ Acceptable (wire { s with errorId := [] }) := by
+    workerReport true worker = [] := by
+  decide
+
+/-- with the repair, what a worker sends keeps its key on the wire whenever the entry has no `thisAndNextLine` flag and a
+    line number only together with a file name: the parent finds its own entry instead of adding a twin -/
+theorem wire_keeps_key (st : State) (m : Suppr) (hm : m ∈ workerReport true st) :
+    ∃ e ∈ st, m = wire e ∧ e.hash = 0 ∧
+      (e.thisAndNextLine = false → (e.fileName = [] → e.lineNumber = noLine) → key m = key e) := by
+  simp only [workerReport, List.mem_map, List.mem_filter, Bool.and_eq_true, Bool.not_eq_true', Bool.and_eq_false_imp,
+    decide_eq_false_iff_not, Bool.true_and] at hm
+  rcases hm with ⟨e, ⟨he, hh, _⟩, rfl⟩
+  have h0 : e.hash = 0 := by
+    apply Classical.byContradiction
+    intro hne
+    exact hh (by omega)
+  refine ⟨e, he, rfl, h0, ?_⟩
+  intro ht hl
+  simp only [key, wire, h0, ht]
+  by_cases hf : e.fileName = []
+  · simp [hf, hl hf]
+  · have : e.fileName.isEmpty = false := by cases hfe : e.fileName <;> simp_all
+    simp [this]
+
+/-- F24c: `--suppress=zerodiv:g.c:1 --suppress=zerodiv`, one zerodiv finding at g.c:1.  With one job both suppressions
+    see the finding and nothing is reported; a worker of the thread / process executor stops at the local one, the
+    global one stays unmatched and is reported.  With the proposed repair (`showGlobal`) the worker marks both. -/
+theorem local_hides_from_global_counterexample :
+    let st0 := [mkSuppr "zerodiv" "g.c" 1, mkSuppr "zerodiv" "" noLine]
+    let m : Msg := ⟨"zerodiv".toList, 1⟩
+    let rep := fun st => (report [()] (fun _ s => s.fileName == "g.c".toList) false (fun _ => false) st).map (·.fileName)
+    rep (runOps toyVerdict st0 [.sup true m]) = [] ∧
+    rep (workerReportErr false toyVerdict st0 m) = [[]] ∧
+    rep (workerReportErr true toyVerdict st0 m) = [] := by
   decide
 
 end Cppcheck.Unmatched
